@@ -289,7 +289,7 @@ fn check(c: &Case, obs: &mut Obs) -> Result<(), Fail> {
     check_block(&block, &view, &bytes, obs)
 }
 
-fn synth_strategy() -> impl Strategy<Value = Case> {
+pub fn synth_strategy() -> impl Strategy<Value = Case> {
     let p = parts();
     (
         prop_oneof![1 => Just(1u8), 1 => Just(2u8), 1 => Just(3u8), 1 => Just(4u8), 3 => Just(5u8), 3 => Just(6u8), 3 => Just(7u8)],
